@@ -15,7 +15,8 @@
 (*   same (mode, depth, batch) => same constraint-system digest, whatever  *)
 (*   the path, process or scheduling; exactly one public input; deletion   *)
 (*   deeper than 31 refused, everything else built;                        *)
-(*   same (depth, batch) => same extraction, definition by definition;     *)
+(*   same (depth, batch) => same extraction, definition by definition,     *)
+(*   and the extraction is a complete model at every dimension;            *)
 (*   the committed model = extraction at (30, 4); every referenced         *)
 (*   definition exists in the committed model.                             *)
 (* Plan (below) derives which executions a run performs.                   *)
@@ -48,6 +49,9 @@ Build == /\ l <= Len(Trace) /\ Ev.event = "build" /\ l' = l + 1
          /\ UNCHANGED <<ex, committed, refs>>
 Extract == /\ l <= Len(Trace) /\ Ev.event = "extract" /\ l' = l + 1
            /\ Ev.err = ""                                               \* SweepOk
+           \* SweepComplete: a successful extraction is a whole model - the namespace is closed, both top-level circuits are defined,
+           \* and every gadget the text uses is defined in it (a silently truncated or partial file is not a success)
+           /\ Ev.shape.closed /\ Ev.shape.mains = <<"DeletionMbuCircuit", "InsertionMbuCircuit">> /\ Ev.shape.dangling = 0
            /\ LET k == <<Ev.depth, Ev.batch>> IN
                 /\ (k \in DOMAIN ex => ex[k].whole = Ev.whole /\ ex[k].defs = Ev.defs)   \* ExtractFunctional
                 /\ ex' = Put(ex, k, [whole |-> Ev.whole, defs |-> Ev.defs])
